@@ -162,32 +162,31 @@ theorem publish_error_class (t : PyStr) (pl : Payload) (q : Nat) (r : Bool) (m :
 /-! ### subscribe() / unsubscribe() -/
 
 theorem subscribe_wrong_type (w : World) (p : Nat) (q : Int) (hal : allowed w p 2 = true)
-    (hwin : (w.paddr p).winSub.length < (w.proto p).window) :
+    (hwin : Ents.count w.ents (w.paddr p) .sub < (w.proto p).window) :
     apiSubscribe p .other q w = (refusedWith w (.retFail .type), none) := by
-  have : ¬ ((w.paddr p).winSub.length ≥ (w.proto p).window) := by omega
+  have : ¬ (Ents.count w.ents (w.paddr p) .sub ≥ (w.proto p).window) := by omega
   simp [apiSubscribe, Step.read, hal, this, emit, Step.mod, refusedWith]
 
 theorem subscribe_bad_qos (w : World) (p : Nat) (s : String) (q : Int) (hal : allowed w p 2 = true)
-    (hwin : (w.paddr p).winSub.length < (w.proto p).window) (h : ¬ (0 ≤ q ∧ q < 3)) :
+    (hwin : Ents.count w.ents (w.paddr p) .sub < (w.proto p).window) (h : ¬ (0 ≤ q ∧ q < 3)) :
     apiSubscribe p (.str s) q w = (refusedWith w (.retFail .value), none) := by
-  have : ¬ ((w.paddr p).winSub.length ≥ (w.proto p).window) := by omega
+  have : ¬ (Ents.count w.ents (w.paddr p) .sub ≥ (w.proto p).window) := by omega
   have h' : q < 0 ∨ 3 ≤ q := by omega
   simp [apiSubscribe, Step.read, hal, this, h', emit, Step.mod, refusedWith]
 
 /-- a call made with the window full fails with MQTTWindowError and changes nothing (C07) -/
 theorem subscribe_window_full (w : World) (p : Nat) (a : SubArg) (q : Int) (hal : allowed w p 2 = true)
-    (hwin : (w.paddr p).winSub.length ≥ (w.proto p).window) :
+    (hwin : Ents.count w.ents (w.paddr p) .sub ≥ (w.proto p).window) :
     apiSubscribe p a q w = (refusedWith w (.retFail .window), none) := by
   simp [apiSubscribe, Step.read, hal, hwin, emit, Step.mod, refusedWith]
 
 theorem unsubscribe_wrong_type (w : World) (p : Nat) (hal : allowed w p 3 = true)
-    (hwin : (w.paddr p).winUnsub.length < (w.proto p).window) :
+    (hwin : Ents.count w.ents (w.paddr p) .unsub < (w.proto p).window) :
     apiUnsubscribe p .other w =
       ({ w with nextId := scanId w 65535 w.nextId, idAllocs := w.idAllocs + 1, log := w.log ++ [.retFail .type] }, none) := by
-  have : ¬ (((w.protos.get? p).getD default).window ≤
-      ((w.addrs.get? ((w.protos.get? p).getD default).addr).getD default).winUnsub.length) := by
-    simp only [World.paddr, World.proto, World.addr] at hwin; omega
-  simp [apiUnsubscribe, Step.read, hal, makeId, Step.seq, Step.mod, World.paddr, World.proto, World.addr, this, emit]
+  have : ¬ (((w.protos.get? p).getD default).window ≤ Ents.count w.ents ((w.protos.get? p).getD default).addr .unsub) := by
+    simp only [World.paddr, World.proto] at hwin; omega
+  simp [apiUnsubscribe, Step.read, hal, makeId, Step.seq, Step.mod, World.paddr, World.proto, emit, this]
 
 /-! Non-vacuity -/
 example : checkConnect { clientId := "c", keepalive := 65536, version := .v311, cleanStart := true } = false := by decide
